@@ -25,7 +25,8 @@ RULE = ("(1) Parameter(**d).get_ref_value(v) on the FULL cross product Type x De
         "non-trivial = the case involves a declared parameter that is referenced, or a non-default table row; distinct by input hash.")
 ASSUMPTIONS = [
     "str() of a float Default is carried as text; list/dict Defaults for scalar parameters are outside the domain (EUndefined)",
-    "the echoed Parameters section of the resolved model (which repeats the template's own Default) is outside the secret-search observable",
+    "the secret search covers the WHOLE dump of the resolved model; the secret is always a value SUPPLIED through extra_params (a secret "
+    "written as the template's own Default is echoed by the Parameters section like the rest of the template: not searched for)",
     "IAMUser: an empty LoginProfile.Password counts as absent (the code tests truthiness); recorded, not raised",
 ]
 MODELLED = ("Parameter.get_ref_value, the merge {pseudo, declared, extra}, resolve_ssm and both has_hardcoded_credentials methods are "
@@ -83,8 +84,10 @@ class SecretSurface(core.Surface):
                 for s in x["secrets"]:
                     extra[s] = tok
                 r = m.resolve(extra)
-                outs.append(json.dumps({"C": r.model_dump(mode="json")["Conditions"], "R": r.model_dump(mode="json")["Resources"]},
-                                       sort_keys=True, default=str))
+                # the WHOLE resolved model: the token is handed in through extra_params only, so it has no business anywhere --
+                # not in Conditions / Resources and not in the echoed Parameters, Outputs, Metadata ... either (audit experiment 3:
+                # the passed value recorded as the parameter's Default of the resolved model went unnoticed)
+                outs.append(json.dumps(r.model_dump(mode="json"), sort_keys=True, default=str))
             return {"leak": x["token1"] in outs[0], "same": outs[0] == outs[1]}
         return core.impl_call(run)
 
